@@ -126,6 +126,14 @@ def config_readers():
 
 
 PROPS["C18"]["functions_all_dynamic"] = config_readers
+PROPS["C16"]["census"] = list(PROPS["C16"].get("census", [])) + [CENSUS.blur_option]
+# new in-memory state (a cache, a memo) undermines every statement about what the server stores and answers:
+# the census of constructor attributes belongs to every property about the running server
+for _pid in ["C%02d" % i for i in range(1, 19)]:
+    if CENSUS.heap_fields not in PROPS[_pid].get("census", []):
+        PROPS[_pid]["census"] = list(PROPS[_pid].get("census", [])) + [CENSUS.heap_fields]
+for _pid in ("C10", "C11", "C12", "C13", "C19"):
+    PROPS[_pid]["census"] = list(PROPS[_pid].get("census", [])) + [CENSUS.event_sources]
 # C10's last sentence (re-sent claim / release / open / close after a crash reach the same answers and state) is C14's
 # statement for the crash case: the clauses C14 rests on count for C10 too, and so do C14's compositions
 TAG_ALSO = {"C10": ["C14"]}
